@@ -444,6 +444,10 @@ pub fn main(opts: &Opts) {
         "@dup-self",
         "@dup-other-different",
         "@dup-other-truncated",
+        // a reply for NO request whose id is another request's id plus 2^32 / 2^64: ids are compared
+        // as the numbers they are, not modulo a machine word
+        "@wide-id-32",
+        "@wide-id-64",
     ] {
         for k in 0..3usize {
             for order in [
@@ -493,6 +497,11 @@ pub fn main(opts: &Opts) {
                                     "999999",
                                     &[reply::Child::Data("<z/>")],
                                 )),
+                                b"@wide-id-32" | b"@wide-id-64" => {
+                                    let n: u128 = ids[other].parse().unwrap_or(1);
+                                    let wide = if garbage.as_slice() == b"@wide-id-32" { n + (1u128 << 32) } else { n + (1u128 << 64) };
+                                    peer.deliver(reply::doc_xml(&wide.to_string(), &[reply::Child::Data("<z/>")]))
+                                }
                                 // a second message bearing another request's id, with other content:
                                 // whoever reads it may fail, the first (genuine) reply must still
                                 // reach its owner
